@@ -145,6 +145,12 @@ unsafe impl GlobalAlloc for Counting {
             });
         }
         if forward {
+            // Poison freed memory (tracked processes only): a stale borrow
+            // into a freed zone then reads 0xDD bytes instead of plausible
+            // old data, and the answer oracles notice.
+            if TRACK.load(Ordering::Relaxed) && layout.size() <= (1 << 16) {
+                std::ptr::write_bytes(p, 0xDD, layout.size());
+            }
             System.dealloc(p, layout);
         }
     }
